@@ -14,6 +14,7 @@ import (
 	"go/token"
 	"os"
 	"path/filepath"
+	"sort"
 	"strings"
 )
 
@@ -856,17 +857,15 @@ func effectOrder(repo, file, fn, lean string, effects [][2]string) string {
 		}
 		return true
 	})
+	// (in the order of the source; two effects found in the same expression — `a != nil || !b.Equals(c)` —
+	// keep the order in which they are listed: never the order of a map)
 	var hits []hit
-	for name, pos := range first {
-		hits = append(hits, hit{pos, name})
-	}
-	for i := range hits {
-		for j := i + 1; j < len(hits); j++ {
-			if hits[j].pos < hits[i].pos {
-				hits[i], hits[j] = hits[j], hits[i]
-			}
+	for _, e := range effects {
+		if pos, ok := first[e[0]]; ok {
+			hits = append(hits, hit{pos, e[0]})
 		}
 	}
+	sort.SliceStable(hits, func(i, j int) bool { return hits[i].pos < hits[j].pos })
 	var names []string
 	for _, h := range hits {
 		names = append(names, fmt.Sprintf("%q", h.name))
@@ -929,7 +928,8 @@ func main() {
 			return snapGuards(repo) + effectOrder(repo, "stores/basestore/utils.go", "SaveSnapshot", "saveSnapshotOrder", [][2]string{
 				{"heads", "oplog.Heads()"}, {"len", "oplog.Len()"}, {"entries", "oplog.GetEntries()"}}) +
 				effectOrder(repo, bs, "LoadFromSnapshot", "loadSnapshotOrder", [][2]string{
-					{"rebuild", "ipfslog.NewFromJSON("}, {"ownlog", "e.GetLogID() != oplog.GetID()"}, {"held", "oplog.Get(e.GetHash())"}, {"canappend", "CanAppend(e, provider"},
+					{"rebuild", "ipfslog.NewFromJSON("}, {"ownlog", "e.GetLogID() != oplog.GetID()"}, {"held", "oplog.Get(e.GetHash())"},
+					{"address", "utils.EntryAddress(ctx, b.IO(), b.IPFS(), e)"}, {"addresscheck", "canonical.Equals(e.GetHash())"}, {"canappend", "CanAppend(e, provider"},
 					{"verify", "e.Verify(provider"}, {"count", "maxClock < t"}, {"max", "b.recalculateReplicationMax("},
 					{"join", "oplog.Join(log, -1)"}, {"index", "b.updateIndex("}, {"status", "b.recalculateReplicationStatus("}})
 		}},
@@ -987,6 +987,12 @@ func main() {
 				effectOrder(repo, "stores/documentstore/document.go", "Get", "docGetOrder", [][2]string{
 					{"onestate", "docIndex.snapshot()"}, {"keys", "docIndex.Keys()"}, {"decode", "o.docOpts.Unmarshal("}})
 		}},
+		{"GenFetched", func() string {
+			return effectOrder(repo, "stores/replicator/replicator.go", "processHash", "processHashOrder", [][2]string{
+				{"fetch", "ipfslog.NewFromEntryHash("}, {"headcheck", "l.Get(hash)"}, {"ownlog", "e.GetLogID() != r.store.OpLog().GetID()"},
+				{"address", "utils.EntryAddress(ctx, r.store.IO(), r.store.IPFS(), e)"}, {"addresserr", "aErr != nil"},
+				{"addresscheck", "canonical.Equals(e.GetHash())"}, {"buffer", "append(r.buffer, l)"}})
+		}},
 		{"GenVerify", func() string {
 			return effectOrder(repo, "accesscontroller/verify.go", "VerifyEntryAuthor", "verifyAuthorOrder", [][2]string{
 				{"keymatch", "bytes.Equal(keyed.GetKey(), identity.PublicKey)"}, {"othertype", "identity.Type != \"orbitdb\""},
@@ -1013,8 +1019,9 @@ func main() {
 			return effectOrder(repo, bs, "Load", "loadJoinOrder", [][2]string{
 				{"fetch", "ipfslog.NewFromEntryHash("}, {"ctxcheck", "ctx.Err()"}, {"headcheck", "l.Get(h.GetHash())"},
 				{"ownlog", "e.GetLogID() != oplog.GetID()"}, {"held", "oplog.Get(e.GetHash())"},
+				{"address", "utils.EntryAddress(ctx, b.IO(), b.IPFS(), e)"}, {"addresserr", "aErr != nil"}, {"addresscheck", "canonical.Equals(e.GetHash())"},
 				{"canappend", "CanAppend(e, provider"}, {"verify", "e.Verify(provider"},
-				{"enough", "l.GetEntries().Len()-refused >= amount"}, {"again", "amount + refused"},
+				{"enough", "l.GetEntries().Len()-refused >= amount"}, {"again", "amount + refused"}, {"double", "next > 2*fetchLength"},
 				{"merge", "oplog.Join(l, -1)"}, {"listing", "oplog.Values().Len() > amount"}, {"trim", "oplog.Join(l, amount)"}})
 		}},
 		{"GenWatch", func() string {
